@@ -61,7 +61,10 @@ CHECKS = {
             "class-level offset, or for the 2nd.. dynamically sized field the word loaded from its offset slot - lands on the field "
             "where the writer placed it), C02_static_sizes_agree / C02_field_sizes_agree (the total translation toLay of the "
             "reference-free types: both models size every type alike, so these theorems apply at every nesting level; composition "
-            "along a path by C01_part_is_written). The tie compares the model's text with the real "
+            "along a path by C01_part_is_written), C02_path_address (the composition: for every reference-free type and every selector "
+            "path of fields and index tuples ending in a scalar element, the emitted statements - given the object's address and the "
+            "index arguments - compute exactly the element's offset leafAt of the layout model) and C02_getter_reads_element (the bytes "
+            "the getter loads are the element the Python accessors return). The tie compares the model's text with the real "
             "_gen_c_api() byte for byte on random types and the IR semantics with the real compiled accessors on real objects.",
             "The C semantics of the printed statement forms is the trusted reading Stmt.exec, validated on every compiled accessor "
             "call of each run; that docAddr is also the address the Python view uses is a theorem for array indexing "
@@ -74,8 +77,10 @@ CHECKS = {
             "of the addressed element and no other byte of memory, for all paths/indices/objects/memories), C07_loads (the header "
             "words read are exactly those the documented layout consults along the path), C07_accesses_get_set, C07_leaf_in_extent / "
             "C07_store_in_extent (the element at the end of every nested path of a writer-produced reference-free object lies "
-            "inside the object's extent; the store changes only its bytes). That the C address of a path IS that element's address "
-            "is executed (leafAt against the library's slot addresses; compiled calls) and run under the sanitizers, not a theorem.",
+            "inside the object's extent; the store changes only its bytes), C07_setter_sets_element (end to end: the store at the "
+            "address the generated setter computes makes a view of the whole enclosing object read the value with exactly the "
+            "addressed element replaced; uses C02_path_address). Paths through references: executed and run under the sanitizers, "
+            "not a theorem.",
             "Runtime not modelled: what the C compiler emits (witnessed by clang -fsanitize=address,undefined runs with the buffer "
             "image flush against the end of an exactly sized heap block).",
             "7/C07"),
